@@ -60,6 +60,9 @@ type MsgSpec struct {
 	Rows  int    `json:"rows"`
 	// NoPartName: delete without partition name (all partitions)
 	NoPartName bool `json:"no_part_name,omitempty"`
+	// AfterDrop: written behind the drop message of its own collection / partition on the same shard, in the same pack,
+	// with a later timestamp (nothing of a dropped object may be emitted after its drop)
+	AfterDrop bool `json:"after_drop,omitempty"`
 }
 
 // Dep is a logical precondition: a fed per-stream pack has been completely processed by the reader
